@@ -46,6 +46,12 @@
  * <variant> names the model variant; it means nothing to the C code.
  */
 #include "coap3/coap_libcoap_build.h"
+#ifdef RP_INCLUDE_OSCORE_C
+/* second build of this driver: src/oscore/oscore.c is compiled as part of this translation
+ * unit with -fsanitize=shift, so that a shift by >= 64 in oscore_validate_sender_seq aborts
+ * (the archive member is then not linked: every symbol of it is defined here) */
+#include "oscore/oscore.c"
+#endif
 #include "oscore/oscore.h"
 #include "oscore/oscore_context.h"
 #include "oscore/oscore_cose.h"
@@ -91,7 +97,7 @@ static coap_oscore_conf_t *make_conf(const char *secret, const char *sid, const 
   coap_str_const_t mem;
   snprintf(txt, sizeof(txt),
            "master_secret,hex,\"%s\"\nmaster_salt,hex,\"9e7ca92223786340\"\n"
-           "sender_id,hex,\"%s\"\nrecipient_id,hex,\"%s\"\n%s",
+           "id_context,hex,\"37cbf3210017a2d3\"\nsender_id,hex,\"%s\"\nrecipient_id,hex,\"%s\"\n%s",
            secret, sid, rid, extra);
   mem.s = (const uint8_t *)txt;
   mem.length = strlen(txt);
